@@ -163,6 +163,18 @@ def tan(a):
     return fn("tan", a)
 
 
+def sec(a):
+    return fn("sec", a)
+
+
+def csc(a):
+    return fn("csc", a)
+
+
+def cot(a):
+    return fn("cot", a)
+
+
 def atan(a):
     return fn("atan", a)
 
@@ -253,6 +265,12 @@ def diff(e: E, x: str) -> E:
             return div(da, mul(C(2), sqrt(a)))
         if name == "tan":
             return mul(add(C(1), mul(tan(a), tan(a))), da)
+        if name == "sec":
+            return mul(div(sin(a), mul(cos(a), cos(a))), da)
+        if name == "csc":
+            return neg(mul(div(cos(a), mul(sin(a), sin(a))), da))
+        if name == "cot":
+            return neg(div(da, mul(sin(a), sin(a))))
         if name == "abs":  # away from a == 0
             return pw(a, da, neg(da))
         if name == "atan":
@@ -353,6 +371,12 @@ def to_z3(e: E, env, denoms=None, domain=None):
         a = to_z3(e.args[1], env, denoms, domain)
         if e.args[0] == "abs":
             return z3.If(a >= 0, a, -a)
+        if e.args[0] in ("sec", "csc", "cot"):
+            c_, s_ = uf("cos")(a), uf("sin")(a)
+            den_ = c_ if e.args[0] == "sec" else s_
+            if denoms is not None:
+                denoms.append(den_)
+            return (c_ if e.args[0] == "cot" else 1) / den_
         if e.args[0] == "tan":
             c = uf("cos")(a)
             if denoms is not None:
@@ -397,6 +421,9 @@ def evalf(e: E, env):
     if op == "fn":
         if e.args[0] == "abs":
             return abs(evalf(e.args[1], env))
+        if e.args[0] in ("sec", "csc", "cot"):
+            v_ = evalf(e.args[1], env)
+            return {"sec": lambda: 1.0 / math.cos(v_), "csc": lambda: 1.0 / math.sin(v_), "cot": lambda: math.cos(v_) / math.sin(v_)}[e.args[0]]()
         return getattr(math, e.args[0])(evalf(e.args[1], env))
     raise NotImplementedError(op)
 
